@@ -161,7 +161,11 @@ def r_C03bc(root):
             out.append(Finding("C03", "C03.b", L, "_determine_rule_type", "%s under %s%s" % (" ".join(ast.unparse(c).split())[:50], "" if dep[0][1] else "not ", dep[0][0]), "whether the inheritance list of a class is recomputed depends on the type recorded for it in an earlier pass: classes that referenced rules gain in later passes (circular references) are never added", witness="Q: P | V; P: X | W; X: '(' Q ')' | KW;")); break
     ti = find(load(root, M), "textx_isinstance"); inst += 1
     rec = [c for c in calls(ti) if callee_name(c) == "textx_isinstance"]
-    if rec and not any("visited" in ast.unparse(t) or " not in " in ast.unparse(t) for c in rec for t, pol in guards(c)):
+    _fti = _sem.info(ti)
+    def _visited_guard(c):
+        # the recursive call lies where a membership test on a visited collection is known (nested if, or an early continue / return)
+        return any(" in " in a and ("visited" in a or "seen" in a) for a, pol in _fti.atoms_at(c)) or any("visited" in ast.unparse(t) or " not in " in ast.unparse(t) for t, pol in guards(c))
+    if rec and not all(_visited_guard(c) for c in rec):
         # harmless only while _tx_inh_by cannot be cyclic, i.e. while C03.b is violated; report only if C03.b holds
         if not any(f.rule == "C03.b" for f in out):
             out.append(Finding("C03", "C03.c", M, "textx_isinstance", ast.unparse(rec[0])[:80], "recursion over _tx_inh_by has no visited set although inheritance lists can be cyclic"))
